@@ -1,7 +1,51 @@
 import PydlVerif.Model.JsonUtil
+import PydlVerif.Model.Geom
 open Lean
 namespace PydlVerif.Driver.C18
+open PydlVerif PydlVerif.Geom
 
-def handle (_j : Json) : Except String Json := throw "C18: no model operations yet"
+def fl (l : List Float) : Json := J.ofList J.ofFloat l
+
+/-- every op takes `"pts"`: a list of rows of floats (bit patterns) and answers one row per row -/
+def handle (j : Json) : Except String Json := do
+  let op ← J.fStr j "op"
+  let pts ← J.list (J.list J.float) (← J.fld j "pts")
+  match op with
+  | "gcirc" =>
+    let units ← J.fInt j "units"
+    let rows ← pts.mapM fun r => match r with
+      | [a, b, c, d] => pure (match gcirc units a b c d with
+          | .ok v => Json.mkObj [("ok", J.ofFloat v)]
+          | .error e => Json.mkObj [("err", Json.str e)])
+      | _ => throw "gcirc: rows of 4"
+    pure (Json.arr rows.toArray)
+  | "r2m" =>
+    let rows ← pts.mapM fun r => match r with
+      | [s, a, b] => let (m, n) := radecToMunu s a b; pure (fl [m, n])
+      | _ => throw "r2m: rows of 3"
+    pure (Json.arr rows.toArray)
+  | "m2r" =>
+    let rows ← pts.mapM fun r => match r with
+      | [s, a, b] => let (m, n) := munuToRadec s a b; pure (fl [m, n])
+      | _ => throw "m2r: rows of 3"
+    pure (Json.arr rows.toArray)
+  | "stripe" =>
+    let rows ← pts.mapM fun r => match r with
+      | [s] => pure (fl [stripeToEta s, stripeToIncl s])
+      | _ => throw "stripe: rows of 1"
+    pure (Json.arr rows.toArray)
+  | "a2x" =>
+    let lat ← J.fBool j "lat"
+    let rows ← pts.mapM fun r => match r with
+      | [p, t] => let (x, y, z) := anglesToX lat p t; pure (fl [x, y, z])
+      | _ => throw "a2x: rows of 2"
+    pure (Json.arr rows.toArray)
+  | "x2a" =>
+    let lat ← J.fBool j "lat"
+    let rows ← pts.mapM fun r => match r with
+      | [x, y, z] => let (p, t) := xToAngles lat (x, y, z); pure (fl [p, t])
+      | _ => throw "x2a: rows of 3"
+    pure (Json.arr rows.toArray)
+  | _ => throw s!"C18: unknown op {op}"
 
 end PydlVerif.Driver.C18
